@@ -260,7 +260,16 @@ func lookupHostFn(cfg *config.Config, notFound gkm.Counter) func(string) *route.
 
 // Returns a matcher function compatible with tcpproxy Matcher from github.com/inetaf/tcpproxy
 func lookupHostMatcher(cfg *config.Config) func(context.Context, string) bool {
-	pick := route.Picker[cfg.Proxy.Strategy]
+	// The matcher only needs to know what kind of route the host has. It must
+	// not use the configured picker: a round-robin pick would advance the
+	// route's cursor a second time per connection and skew the distribution
+	// of the lookup which follows (with two targets one would never be used).
+	pick := func(r *route.Route) *route.Target {
+		if len(r.Targets) == 0 {
+			return nil
+		}
+		return r.Targets[0]
+	}
 	return func(ctx context.Context, host string) bool {
 		t := route.GetTable().LookupHost(host, pick)
 		if t == nil {
